@@ -307,6 +307,11 @@ class CallMixin:
             v = self.eval(d, dfr, self.module_state(fi.module))
         finally:
             self._cur_fn = saved
+        if v.op in ("Dict", "List", "Set", "Call", "Obj", "ListComp", "DictComp"):
+            # a default value is created once, at definition: a mutable one is state shared by all calls
+            if v.extra is None:
+                v.extra = {}
+            v.extra.setdefault("global", f"default argument value of {fi.qualname} (created once, at definition)")
         self._defaults_memo[key] = v
         return v
 
